@@ -84,15 +84,9 @@ def player_one_left_right_transitions(length, width, moves, offset_l, offset_r):
             if offset_l != offset_r:
                 transition.append(("Left",  offset_l + i * width + j))
                 transition.append(("Right", offset_r + i * width + j))
-            elif j == 0:
-                transition.append(("Left",  offset_l + i * width + width - 1))
-                transition.append(("Right", offset_r + i * width + j + 1))
-            elif j == width - 1:
-                transition.append(("Left",  offset_l + i * width + j - 1))
-                transition.append(("Right", offset_r + i * width))
             else:
-                transition.append(("Left",  offset_l + i * width + j - 1))
-                transition.append(("Right", offset_r + i * width + j + 1))
+                transition.append(("Left",  offset_l + i * width + (j - 1) % width))
+                transition.append(("Right", offset_r + i * width + (j + 1) % width))
 
             if moves[i][j] == 0:
                 # just left
